@@ -140,7 +140,7 @@ func (r *Router) ServeHTTP(res http.ResponseWriter, req *http.Request) {
 func (r *Router) HandleContext(c *Context) {
 	c.Reset()
 	r.handleHTTPRequest(c)
-	r.ctxPool.Put(c)
+	// Notice: dont put the context to pool at here, it is released by the ServeHTTP() that owns it
 }
 
 // handle HTTP Request
